@@ -255,7 +255,7 @@ def doApproveProg : List Step :=
    .hist "\"RES:\"",
    .status, .status,                             -- status.SetCompare | status.SetApprove (both branches)
    .hist "\"END:\"",
-   .mayExit 1, .mayExit 0]                       -- if failed { return 1 } else { return 0 }
+   .mayExit 1, .exit 0]                          -- if failed { return 1 }; return 0
 
 inductive Front
   | drc | doApprove
